@@ -5,7 +5,7 @@ from vlib.common import sh, VERIF
 
 PID = "C47"
 META = {
-    "text": "Theorems (Properties_C47.v, closed under the global context) about a line-by-line transcription of helperHandleRead / helperReturnBuffer / popRequest / helperDispatch as a step function over the chunks returned by read(2) (AuthhelperModel.v): for EVERY request table, EVERY helper byte stream whose lines start with the channel number (concurrent protocol; any text for non-concurrent helpers) and EVERY way of cutting that stream into reads, the sequence of callbacks (request, reply text) equals the line-by-line specification `spec_lines` up to blanks at the two ends of the text, and is exactly equal for helpers that write `id SP text LF`; every callback goes to the request whose channel id is the decimal number at the start of that line; a line whose number is not the id of an outstanding request (unknown, duplicate, negative) calls nobody back; each request is called back at most once; a non-concurrent helper's replies go to the requests in submission order, squid's own queue included. Two leniencies of the real reader are stated as refutations with witnesses (a reply line that starts with a blank and is cut after it goes to channel 0; `OK CR | LF` is delivered as the text `OK CR`, which Helper::Reply::finalize does not recognise as OK). Tie: the extracted model is run against the real squid binary: url_rewrite_program / external_acl_type helpers written for the check answer out of order, with scripted write fragmentation (each write is read separately by squid: the helper waits for SIOCOUTQ == 0), splits inside the channel id and inside CRLF, duplicate, unknown and overflowing ids; the observable is the URL each request reaches the origin with (or 200/403 for the ACL).",
+    "text": "Theorems (Properties_C47.v, closed under the global context) about a line-by-line transcription of helperHandleRead / helperReturnBuffer / popRequest / helperDispatch / helperKickQueue as a step function over the chunks returned by read(2) (AuthhelperModel.v): for EVERY request table, EVERY helper byte stream none of whose lines starts with a blank (concurrent protocol; any bytes for helpers without channels) and EVERY way of cutting that stream into reads, the sequence of callbacks (request, reply text) is the one the per-line specification `spec_stream` gives for the complete lines - up to blanks at the two ends of the text; all of it when the helper was not killed meanwhile, a prefix otherwise (simulation proof: representation invariant over the unterminated line, induction over the list of reads); two fragmentations of the same bytes therefore give the same callbacks; every callback goes to a request that was waiting on the channel whose decimal number starts that reply line; lines whose number is not the id of a waiting request (unknown, already answered, negative) call nobody back; a helper without channels answers the transactions in the order in which they asked, over any sequence of submissions and reads and including squid's own queue. Three leniencies of the real reader are stated as refutations with witnesses: the channel number is read with strtol into an int, so `4294967298 X` is applied to channel 2 (known finding C47-channel-number-wrapped); `OK CR | LF` is delivered as the text `OK CR`, which Helper::Reply::finalize does not recognise as OK (known finding C47-crlf-split-result); a reply line that starts with a blank and is cut after it is read as channel 0. Tie: the extracted model (reader + Helper::Reply::finalize + redirectHandleReply/clientRedirectDone resp. externalAclHandleReply result mapping) is run against the real squid binary: a url_rewrite_program / external_acl_type helper written for the check (lab/helper_authhelper.c, a fresh process per scenario so that channel ids restart at 1) answers out of order with scripted write fragmentation (every write is read separately by squid: the helper waits for SIOCOUTQ == 0), cuts inside the channel id and inside CR LF, duplicate, unknown, negative and overflowing ids; the observable is the URL each request reaches the origin with (200/403 for the ACL).",
     "note": "partial: the theorems are about the transcribed reader; that the event-driven proxy runs exactly this code on every path rests on the end-to-end correspondence. Not modelled: helper timeout= (stats.timedout), the 1 MB Reply::accumulate limit and the read-buffer limit, NUL bytes in the helper stream, the BH retry, quoted/escaped kv values, stateful helpers (helperStatefulHandleRead discards everything after the first line of a read - not exercised). Trusted: Coq kernel, extraction, vlib/lab.py, lab/helper_authhelper.c.",
     "technique": "Coq proof (simulation of the chunked reader by a per-line specification, induction over the list of reads with a representation invariant; vm_compute witnesses for the refutations) + end-to-end differential correspondence of the extracted model against the running squid + independent oracle",
 }
@@ -424,7 +424,7 @@ def run(res, tier):
                 "read separately by squid; non-trivial = at least one reply applied and at least two writes")
     std.run_lab(res, PID, tier, area="authhelper", gen_scenarios=gen_scenarios, run_impl=run_impl,
                 to_case=to_case, oracle=oracle, corr_name="AuthhelperModel (hread/scenario_disps) vs the running squid",
-                n_quick=110, n_thorough=2500, seed_salt=47,
+                n_quick=90, n_thorough=2500, seed_salt=47,
                 kind_fn=lambda s, o: s["kind"] + ":" + ("applied" if ("rw:" in o or "allow" in o) else "none"),
                 nontrivial_fn=lambda s, o: ("rw:" in o or "allow" in o) and len(s["cuts"]) >= 1)
     _state.clear()
